@@ -1,6 +1,7 @@
 package verifsim
 
 import (
+	"bytes"
 	"fmt"
 	"math/big"
 	"testing"
@@ -74,9 +75,11 @@ func sampleView(w *World, as *appstate.AppState) map[string]string {
 		id := st.GetIdentity(a.Addr)
 		ib, _ := id.ToBytes()
 		ih := hash32(ib)
-		m[a.Name] = fmt.Sprintf("bal=%v nonce=%d epoch=%d stake=%v id=%x validated=%v online=%v", st.GetBalance(a.Addr), st.GetNonce(a.Addr), st.GetEpoch(a.Addr), st.GetStakeBalance(a.Addr),
-			ih[:6], as.IdentityState.IsValidated(a.Addr), as.IdentityState.IsOnline(a.Addr))
+		vc := as.ValidatorsCache
+		m[a.Name] = fmt.Sprintf("bal=%v nonce=%d epoch=%d stake=%v id=%x validated=%v online=%v | validators view: validated=%v online=%v pool=%v(%d) discriminated=%v", st.GetBalance(a.Addr), st.GetNonce(a.Addr), st.GetEpoch(a.Addr), st.GetStakeBalance(a.Addr),
+			ih[:6], as.IdentityState.IsValidated(a.Addr), as.IdentityState.IsOnline(a.Addr), vc.IsValidated(a.Addr), vc.IsOnlineIdentity(a.Addr), vc.IsPool(a.Addr), vc.PoolSize(a.Addr), vc.IsDiscriminated(a.Addr))
 	}
+	m["validators"] = fmt.Sprintf("network=%d online=%d validators-size=%d", as.ValidatorsCache.NetworkSize(), as.ValidatorsCache.OnlineSize(), as.ValidatorsCache.ValidatorsSize())
 	m["global"] = fmt.Sprintf("epoch=%d nvt=%d period=%d fee=%v god=%x lastSnapshot=%d", st.Epoch(), st.NextValidationTime().Unix(), st.ValidationPeriod(), st.FeePerGas(), st.GodAddress().Bytes()[:4], st.LastSnapshot())
 	m["zero"] = fmt.Sprint(st.GetBalance(common.Address{}))
 	for _, c := range contractsByWorld[w] {
@@ -233,6 +236,23 @@ func TestVerifC13Chain(t *testing.T) {
 					rep.Count("subchain_validations", 1)
 				}
 			case 3:
+				if i%8 == 3 {
+					// the snapshot manager's export of the head or of an older retained height
+					k := uint64(s.R.Intn(4))
+					if k >= h {
+						k = 0
+					}
+					guard(rep, R, "WriteSnapshot2(export)", false, func() {
+						var buf bytes.Buffer
+						if _, err := R.AppState.State.WriteSnapshot2(h-k, &buf); err == nil {
+							rep.Count("snapshot_exports", 1)
+							if k > 0 {
+								rep.Count("snapshot_exports_of_older_heights", 1)
+							}
+						}
+					})
+					break
+				}
 				guard(rep, R, "Readonly-queries", false, func() {
 					if v, err := R.AppState.Readonly(h); err == nil {
 						v.State.GetBalance(w.God.Addr)
